@@ -151,6 +151,12 @@ func taskEnv(sc *sim.Scenario, i int) *sim.Env {
 
 var ppmClasses = []int{0, 5, 100, 2000, 50000, 500000}
 
+// c18cold: no C18 world has run in this process yet. The first world of a process runs one
+// thrashing interleaved schedule BEFORE the solo passes: state that the library initialises
+// lazily on first use (and publishes before it is complete) is then initialised while the
+// parties are interleaved, which the usual order (solo passes first = warm-up) can never see.
+var c18cold = true
+
 func (c18) Exec(sc *sim.Scenario, env *sim.Env) *sim.Violation {
 	st := env.Stats
 	nt := len(sc.Tasks)
@@ -160,6 +166,60 @@ func (c18) Exec(sc *sim.Scenario, env *sim.Env) *sim.Violation {
 	if nt > 8 {
 		nt = 8
 	}
+	var coldRes []taskResult
+	var coldSched []sim.Switch
+	if c18cold && sc.Sched == nil {
+		c18cold = false
+		envs := make([]*sim.Env, nt)
+		for i := range envs {
+			envs[i] = taskEnv(sc, i)
+		}
+		scc := *sc
+		scc.Seed = sim.Mix(sc.Seed ^ 0xc01d)
+		scc.SwitchPPM = 300000
+		sched := sim.NewSched(&scc, envs, st, 900000000)
+		results := make([]string, nt)
+		tasks := make([]func(e *sim.Env), nt)
+		for i := 0; i < nt; i++ {
+			i := i
+			tasks[i] = func(e *sim.Env) { results[i] = runTask(sc.Tasks[i], i, e) }
+		}
+		sched.Run(tasks)
+		if sched.Deadlocked {
+			sc.Sched = append([]sim.Switch{}, sched.Recorded...)
+			sc.Cfg["nsched"] = 1
+			return sched.Viol
+		}
+		if !sched.Aborted {
+			for i := 0; i < nt; i++ {
+				coldRes = append(coldRes, taskResult{envs[i].Digest(), nil, results[i]})
+			}
+			coldSched = sched.Recorded
+			st.Probe("cold_start_interleaved_first")
+		}
+	} else if sc.C("coldfirst") != 0 && c18cold {
+		// replay of a cold-start finding: same order, explicit schedule
+		c18cold = false
+		envs := make([]*sim.Env, nt)
+		for i := range envs {
+			envs[i] = taskEnv(sc, i)
+		}
+		sched := sim.NewSched(sc, envs, st, 900000000)
+		results := make([]string, nt)
+		tasks := make([]func(e *sim.Env), nt)
+		for i := 0; i < nt; i++ {
+			i := i
+			tasks[i] = func(e *sim.Env) { results[i] = runTask(sc.Tasks[i], i, e) }
+		}
+		sched.Run(tasks)
+		if !sched.Aborted && !sched.Deadlocked {
+			for i := 0; i < nt; i++ {
+				coldRes = append(coldRes, taskResult{envs[i].Digest(), nil, results[i]})
+			}
+			coldSched = sched.Recorded
+		}
+	}
+	c18cold = false
 	// 1. solo passes (also the warm-up of initialise-once state)
 	solo := make([]taskResult, nt)
 	rolesSeen := map[string]bool{}
@@ -185,6 +245,21 @@ func (c18) Exec(sc *sim.Scenario, env *sim.Env) *sim.Violation {
 		}
 		gPrev = gNow
 		rolesSeen[sc.Tasks[i].Role] = true
+	}
+	for i := range coldRes {
+		if coldRes[i].digest != solo[i].digest || coldRes[i].viol != solo[i].viol {
+			sc.Sched = append([]sim.Switch{}, coldSched...)
+			if sc.Sched == nil {
+				sc.Sched = []sim.Switch{}
+			}
+			sc.Cfg["nsched"] = 1
+			sc.Cfg["coldfirst"] = 1
+			return &sim.Violation{Oracle: "interference_at_cold_start", Step: -1, NoShrink: true,
+				Msg: fmt.Sprintf("party %d (%s), interleaved with the others as the very first use of the library in this process, observed something else than alone afterwards: state that is initialised lazily on first use is visible to other goroutines before it is complete (schedule of %d switches)", i, sc.Tasks[i].Role, len(coldSched))}
+		}
+	}
+	if sc.C("coldfirst") != 0 {
+		return nil // replay of a cold-start finding: nothing else to look at
 	}
 	// 2. baseline of package-level state
 	g0s := sim.SnapshotGlobals(false)
